@@ -417,6 +417,18 @@ def check_c03(rec, names, symbols, Model, light=False):
             except (fsic.exceptions.SolutionError, ZeroDivisionError, OverflowError):
                 pass
         n += 1
+        # the default range belongs to the span, not to the object's past: after extending (or shortening) the horizon by
+        # reindex() it is the range of the new span
+        for L2 in (L + 2, max(L - 1, rec['lags'] + rec['leads'] + 1)):
+            try:
+                m2 = m.reindex(range(50, 50 + L2))
+                got2 = [int(i) for i, _ in m2.iter_periods()]
+            except Exception as e:
+                raise Mis('c03-default-range-after-reindex', L=L, L2=L2, error=f'{type(e).__name__}: {str(e)[:120]}')
+            want2 = list(range(rec['lags'], L2 - rec['leads']))
+            n += 1
+            if got2 != want2:
+                raise Mis('c03-default-range-after-reindex', L=L, L2=L2, got=got2, want=want2)
     return n
 
 
@@ -807,8 +819,14 @@ def check_c15(rec, names, symbols, seed):
                     if q < 0:
                         raise Mis('c15-converter-output-not-verbatim', converter=conv.__name__, line=line)
                     pos = q
-        M = fsic.build_model(symbols, converter=conv)
+        lst = list(symbols)
+        calls.clear()
+        M = fsic.build_model(lst, converter=conv)
+        built_calls = list(calls)
+        lst.clear()               # the caller's list is the caller's: the class must not depend on it after build_model returned
         # the class carries the text its converter produced, whatever was built from the same symbols before or after
+        if M.CODE != text or list(calls) != built_calls or built_calls != want_calls:
+            raise Mis('c15-CODE-differs-from-definition-text', converter=conv.__name__, converter_calls=list(calls), want_calls=want_calls)
         if M.CODE != text:
             raise Mis('c15-CODE-differs-from-definition-text', converter=conv.__name__)
         if fsic.build_model(symbols).CODE != fsic.build_model_definition(symbols):
